@@ -42,10 +42,11 @@ def run(prop_id, tier, seed, spec):
     chk = None
     if tier == "thorough" and ok and cone:
         # independent re-check of the compiled property file and everything it depends on
-        rc, out = C.sh(["timeout", "3000", "coqchk", "-silent", "-o", "-Q", "theories", "Garr", "Garr.Properties." + prop_id],
+        mods = ["Garr.Properties." + prop_id] + ["Garr." + f[len("theories/"):-2].replace("/", ".") for f in extra_files]
+        rc, out = C.sh(["timeout", "3000", "coqchk", "-silent", "-o", "-Q", "theories", "Garr"] + mods,
                        cwd=C.COQ, timeout=3100)
         tail = out[out.find("CONTEXT SUMMARY"):] if "CONTEXT SUMMARY" in out else out[-1500:]
-        chk = {"cmd": "coqchk -silent -o -Q theories Garr Garr.Properties." + prop_id, "rc": rc, "summary": tail[:2500]}
+        chk = {"cmd": "coqchk -silent -o -Q theories Garr " + " ".join(mods), "rc": rc, "summary": tail[:2500]}
         if rc != 0:
             problems.append({"what": "coqchk rejected the compiled development", "log": out[-1500:]})
     discharged = closed if ok and not problems else 0
